@@ -45,9 +45,19 @@ def fromStatistics (P dt : List Rat) (aux : Aux) : Prepared :=
 def fromGymir (records : List (Rat × Rat)) (auxLoad : Rat) : Prepared :=
   fromSeries (records.map (·.1)) (records.map (·.2)) (.scalar auxLoad)
 
+/-- The samples that are held over an interval: all but the closing one (a single record is kept). -/
+def heldSamples (per : List Rat) : List Rat := if per.length > 1 then per.dropLast else per
+
 /-- Protobuf time series: `(epoch, propulsion, auxiliary)` records; the per-sample auxiliary power
-is used unless it is zero in every record, then the message-level value. -/
+is used unless it is zero in every record that is held over an interval, then the message-level value
+(the closing record decides nothing: D134). -/
 def fromProto (records : List (Rat × Rat × Rat)) (auxMsg : Rat) : Prepared :=
+  let per := records.map (·.2.2)
+  let aux := if (heldSamples per).all (· == 0) then List.replicate records.length auxMsg else per
+  fromSeries (records.map (·.1)) (records.map (·.2.1)) (.series aux)
+
+/-- As found: the closing record took part in the test. -/
+def fromProtoLegacy (records : List (Rat × Rat × Rat)) (auxMsg : Rat) : Prepared :=
   let per := records.map (·.2.2)
   let aux := if per.all (· == 0) then List.replicate records.length auxMsg else per
   fromSeries (records.map (·.1)) (records.map (·.2.1)) (.series aux)
